@@ -290,6 +290,6 @@ LxRet(lx, call, ev) ==
     ELSE IF call.api = "write" THEN WriteRet(lx, call, ev, ev.size)
     ELSE IF call.api \in {"open", "enter", "get_tag_list"} /\ "view" \in DOMAIN ev /\ ev.outcome = "value" /\ ev.faulted = 0
          THEN RetR(UploadClause(lx, ev.view, IF call.api = "get_tag_list" THEN call.intent.allprogs = 1 ELSE lx.allprogs, lx.fw), lx)
-    ELSE IF call.api = "get_tag_list" /\ ev.outcome # "value" /\ ev.faulted = 0 THEN RetR("C05:upload-failed", lx)
+    ELSE IF call.api = "get_tag_list" /\ ev.outcome # "value" /\ ev.faulted = 0 /\ ~lx.upl.refused THEN RetR("C05:upload-failed", lx)
     ELSE RetR("", lx)
 ==============================================================================
